@@ -334,6 +334,9 @@ def real_run(c, full=True):
                 out["error:scorr"] = f"{type(e).__name__}: {e}"
             if not np.array_equal(np.array(b.ParticlePhi), out["phi"]):
                 out["error:mutated"] = "ParticlePhi changed by time_average/time_corr/spatial_corr"
+            for t in range(T):
+                if not np.array_equal(snaps.snapshots[t].positions, np.array([[float(x), float(y)] for x, y in c["pos"][t]])):
+                    out["error:mutated-input"] = f"snapshot {t}: positions changed by boo_2d"
     except Exception as e:
         out["error:lthorder"] = f"{type(e).__name__}: {e}"
     finally:
@@ -579,8 +582,11 @@ def judge_real_vs_spec(c, real=None):
         r, g, a = real["scorr"]
         sr, sg, sa, mg = spec_scorr(c, phi)
         if mg >= MARGIN:
-            if not (arr_close(r, sr) and arr_close(g, sg)):
-                fails.append(("spatial_corr:gr", f"rdelta={c['rdelta']}: r/gr columns differ from the definition; first gr {g[:4]!r} vs {sg[:4]!r}"))
+            if len(r) != len(sr):
+                fails.append(("spatial_corr:gr", f"rdelta={c['rdelta']}: {len(r)} bins returned, int(min(L)/2/rdelta) = {len(sr)}"))
+            elif not (arr_close(r, sr) and arr_close(g, sg)):
+                k = next(i for i in range(len(r)) if not (cclose(r[i], sr[i]) and cclose(g[i], sg[i])))
+                fails.append(("spatial_corr:gr", f"rdelta={c['rdelta']} bin {k}: (r, gr)=({r[k]!r}, {g[k]!r}) but the definition gives ({sr[k]!r}, {sg[k]!r})"))
             elif not arr_close(a, sa):
                 k = next(i for i in range(len(a)) if not cclose(a[i], sa[i]))
                 fails.append(("spatial_corr:gA", f"rdelta={c['rdelta']} bin {k}: gA={a[k]!r} but the definition gives {sa[k]!r}"))
